@@ -157,6 +157,21 @@ def check(rep, tier):
     rL = fr.run(cfgL, script=lambda call, m: np.zeros(m) if call >= nL - 1 else np.full(m, 0.999999999))
     rep.case("corpus-last-step", nontrivial=True)
     oracle(rep, cfgL, rL, rng)
+    # corpus: a process that ends while a vial is in the middle of its solidification, the threshold placed between the vial's last two stored
+    # ice fractions: the threshold is first exceeded AT the last grid point, and the statistics must say so
+    for seedE, shapeE, dtE, ttE in [(7, (3, 3, 1), 5.0, 6000.0), (7, (4, 2, 1), 2.0, 5000.0)]:
+        cfgE = dict(arr="square", shape=shapeE, k={"int": 20, "ext": 20, "s0": 20, "s_sigma_rel": 0.1}, dt=dtE, T_init=None, over={}, initIce="indirect",
+                    seed=seedE, seed_v=2024, prog=dict(start=20, end=-50, rate=0.5 / 60, holds=[], t_tot=ttE, dt=dtE), cnTemp=None, thr=0.9)
+        rE = fr.run(cfgE, storeStates="all")
+        sgE = rE["XS"]
+        grow = np.nonzero((sgE[:, -2] > 0) & (sgE[:, -1] > sgE[:, -2]) & (sgE[:, -1] < 0.999))[0]
+        rep.count("corpus-threshold-at-last-point: vials still growing at the end", len(grow))
+        if len(grow):
+            vE = int(grow[0])
+            cfgE2 = dict(cfgE, thr=float(0.5 * (sgE[vE, -2] + sgE[vE, -1])))
+            rE2 = fr.run(cfgE2, storeStates="all")
+            rep.case("corpus-threshold-first-exceeded-at-the-last-grid-point " + repr(shapeE), nontrivial=True)
+            oracle(rep, cfgE2, rE2, rng); accessors(rep, cfgE2, rE2, rng)
     # corpus: strongly coupled vials (k_int >> k_shelf): a late-nucleating neighbour re-melts part of an almost frozen vial, whose ice
     # fraction falls back below the threshold and crosses it a second time -- the reported time is the FIRST crossing
     strong = []
